@@ -22,6 +22,7 @@ type layout struct {
 	comment  bool // a trailing comment on every line
 	blank    bool // blank lines inside blocks and line breaks inside array literals
 	unicode  bool // non-ASCII text in comments
+	pleaves  bool // redundant parentheses around names and literals too
 	clines   bool // lines holding only a comment: after {, between statements, before }
 	indent   bool // lines inside blocks start with blanks and tabs, and end with blanks
 }
@@ -141,7 +142,16 @@ func (l *layout) expr(n node.Type) string {
 		if _, ok := x.Right.(node.Function); ok {
 			rp = true
 		}
-		return l.operand(x.Left, lp) + l.sp() + l.glue(x.Op, l.operand(x.Right, rp))
+		rhs := l.operand(x.Right, rp)
+		if l.pleaves && !rp {
+			switch x.Right.(type) {
+			case node.Name, node.Int, node.Float, node.Bool, node.String:
+				// redundant parentheses around a name or literal; only in right operands: a
+				// leftmost "(x)" directly after a name would read as a call
+				rhs = "(" + rhs + ")"
+			}
+		}
+		return l.operand(x.Left, lp) + l.sp() + l.glue(x.Op, rhs)
 	case node.UnOp:
 		_, isAtomic := x.Target.(node.BinOp)
 		_, isUn := x.Target.(node.UnOp)
@@ -357,14 +367,14 @@ func c07Stmt(d int, inner bool) node.Type {
 
 func c07Layout() *layout {
 	if vrt.Param("layouts", 0) == 1 { // every combination
-		l := &layout{parens: vrt.Bool("lay.parens"), spaces: vrt.Bool("lay.spaces"), comment: vrt.Bool("lay.comment"), blank: vrt.Bool("lay.blank"), clines: vrt.Bool("lay.clines"), indent: vrt.Bool("lay.indent")}
+		l := &layout{parens: vrt.Bool("lay.parens"), spaces: vrt.Bool("lay.spaces"), comment: vrt.Bool("lay.comment"), blank: vrt.Bool("lay.blank"), clines: vrt.Bool("lay.clines"), indent: vrt.Bool("lay.indent"), pleaves: vrt.Bool("lay.pleaves")}
 		if l.comment {
 			l.unicode = vrt.Bool("lay.unicode")
 		}
 		return l
 	}
 	presets := [...]layout{{}, {spaces: true}, {parens: true, spaces: true}, {comment: true}, {comment: true, unicode: true, blank: true}, {blank: true, parens: true},
-		{clines: true}, {clines: true, blank: true, indent: true, spaces: true}, {indent: true, comment: true}}
+		{clines: true}, {clines: true, blank: true, indent: true, spaces: true}, {indent: true, comment: true}, {pleaves: true}, {pleaves: true, parens: true, spaces: true}}
 	l := presets[vrt.Choice("layout", len(presets))]
 	return &l
 }
